@@ -13,6 +13,7 @@ use crate::seam;
 use crate::xmltree;
 use serde::{Deserialize, Serialize};
 use serde_json::Value;
+use std::collections::BTreeMap;
 use std::time::Duration;
 
 pub struct C06;
@@ -280,14 +281,14 @@ impl Engine for C06 {
         let children = match tier {
             Tier::Quick => {
                 if index % 4 == 1 {
-                    2
+                    3
                 } else {
                     0
                 }
             }
             Tier::Thorough => {
                 if index % 2 == 1 {
-                    3
+                    4
                 } else {
                     0
                 }
@@ -317,7 +318,14 @@ impl Engine for C06 {
                 ],
             };
             incs.push(Inc {
-                kind: if j % 2 == 0 { "child-file" } else { "child-stdin" }.into(),
+                // (child-file-out: the output goes to a file which already exists and is longer)
+                kind: match j {
+                    0 => "child-file",
+                    1 => "child-stdin",
+                    2 => "child-file-out",
+                    _ => "child-stdin",
+                }
+                .into(),
                 entropy: e.next_u64(),
                 clock_ns: clock + (j as u64) * 7_000_000_000,
                 repeats: 0,
@@ -444,7 +452,7 @@ impl Engine for C06 {
                         }
                     }
                 }
-                k @ ("child-file" | "child-stdin") => {
+                k @ ("child-file" | "child-stdin" | "child-file-out") => {
                     let dir = run_dir.join(format!("p{j}"));
                     if let Err(e) = std::fs::create_dir_all(&dir) {
                         res.harness_error = Some(format!("mkdir: {e}"));
@@ -452,12 +460,22 @@ impl Engine for C06 {
                     }
                     let mut args = scn.cfg.to_cli_args();
                     let stdin_data;
-                    if k == "child-file" {
+                    if k == "child-file" || k == "child-file-out" {
                         if let Err(e) = std::fs::write(dir.join("in.xml"), &scn.doc.0) {
                             res.harness_error = Some(format!("write: {e}"));
                             return res;
                         }
                         args.push("in.xml".into());
+                        if k == "child-file-out" {
+                            // left over from an earlier, larger rendering
+                            let junk = vec![b'Z'; 3 * scn.doc.0.len() + 60_000];
+                            if let Err(e) = std::fs::write(dir.join("out.svg"), &junk) {
+                                res.harness_error = Some(format!("write: {e}"));
+                                return res;
+                            }
+                            args.push("-o".into());
+                            args.push("out.svg".into());
+                        }
                         stdin_data = None;
                     } else {
                         stdin_data = Some(scn.doc.0.as_slice());
@@ -491,13 +509,19 @@ impl Engine for C06 {
                         Outcome::Budget
                     } else if cr.signal.is_some() {
                         Outcome::Panic(format!("killed by signal {:?}", cr.signal))
+                    } else if cr.code == Some(0) && k == "child-file-out" {
+                        match std::fs::read(dir.join("out.svg")) {
+                            Ok(b) => Outcome::Ok(b),
+                            Err(e) => Outcome::Err(format!("output file unreadable: {e}")),
+                        }
                     } else if cr.code == Some(0) {
                         Outcome::Ok(cr.stdout.clone())
                     } else if cr.code == Some(101) {
                         Outcome::Panic(String::from_utf8_lossy(&cr.stderr).into_owned())
                     } else {
-                        // the Debug rendering on stderr is not "the error value"; only the class is compared
-                        Outcome::Err(String::new())
+                        // the command's message is its error: compared between command incarnations
+                        // of the same kind (never with the library's error value)
+                        Outcome::Err(String::from_utf8_lossy(&cr.stderr).into_owned())
                     };
                     res.stats.outcome(o.class());
                     obs.push((format!("{k}#{j}"), inc.entropy, inc.clock_ns, o));
@@ -519,6 +543,30 @@ impl Engine for C06 {
             rng::hash_bytes(&scn.doc.0),
             rng::mix(rng::hash_str(&serde_json::to_string(&scn.cfg).unwrap()), rng::hash_str(class0)),
         );
+        // the command's own error text: compared between the child-process incarnations
+        // (a library error value and the command's message need not be the same text)
+        let mut first_child_err: BTreeMap<String, (String, String)> = BTreeMap::new();
+        for (k, _e, _c, o) in obs.iter() {
+            if let (true, Outcome::Err(text)) = (k.starts_with("child"), o) {
+                let family = "child".to_string();
+                match first_child_err.get(&family) {
+                    None => {
+                        first_child_err.insert(family, (k.clone(), text.clone()));
+                    }
+                    Some((k1, t1)) => {
+                        res.stats.probe("child_error_texts_compared");
+                        if t1 != text {
+                            res.violation(
+                                "determinism/error-differs",
+                                "c06:error-differs:command",
+                                format!("the command reported a different error in incarnation {k} than in {k1}: {:?} vs {:?}", shorten(text, 600), shorten(t1, 600)),
+                            );
+                            break;
+                        }
+                    }
+                }
+            }
+        }
         if let Some((k0, _e0, c0, first)) = obs.first().cloned() {
             for (k, _e, c, o) in obs.iter().skip(1) {
                 let is_child = k.starts_with("child");
